@@ -16,9 +16,11 @@ Lines (`<tid>`, `<sid>`, `<id>`, `<n>` decimal; `<io>` = `ok` | `faillog` | `fai
 * `at <tid> <µstep>` — "thread `tid` performed micro-step `µstep`" as the lock recorder (hook H18, `vharness lockrec`)
   reports it: the model checks that this IS the thread's next micro-step and that it is enabled, then performs it.
   `call` (of a program of the code) and `at` lines are executed by `Locks2.replayLine` (`Api/Locks2Replay.lean`), the
-  function `T15_replay_sound` is about; the observation steps `sess_root`, `read_root`, `sess_read` answer with the
-  value they see (`Locks2.stepObs`)
+  function `T15_replay_sound` is about; `atv <tid> <µstep>` is the same and makes the observation steps `sess_root`,
+  `read_root`, `sess_read` answer with the value they see (`Locks2.stepObs`)
                                                       → `ok ran [<value>]` | `ok finished <verdict>` | `mismatch next=<µstep>` | `mismatch blocked` | `mismatch idle`
+* `spur <tid> <tid'>` — "thread `tid`'s `try_write` failed while nobody held the access lock and `tid'` was queued at it"
+  (parking_lot's PARKED_BIT; `Event.spur`)            → `ok finished busy` | `mismatch not-spurious`
 * `final`                                             → `root=<r> content=<c> log=<n> poisoned=<b> verdicts=<…>`: the committed state and the verdicts of the
                                                         write sections in write-guard order (what T15.6 speaks about)
 * `enabled <tid>`                                     → `idle` | `enabled <µstep>` | `blocked <µstep> by <tids>`
@@ -128,10 +130,18 @@ def locksStep (s : LS) (line : String) : LS × String :=
       let i := match (s.thr t).prog with | i :: _ => instrName i | [] => ""
       let (s', r) := next lOps s (.step t); (s', showStepRes i r)
     | none => (s, "err parse")
-  | ["at", t, name] =>
+  | ["spur", t, u] =>
+    match t.toNat?, u.toNat? with
+    | some t, some u =>
+      match replayLine lOps s (.spur t u) with
+      | (s', .finished v) => (s', s!"ok finished {resName v}")
+      | (s', _) => (s', "mismatch not-spurious")
+    | _, _ => (s, "err parse")
+  | [kw, t, name] =>
+    if kw != "at" && kw != "atv" then (s, "err parse") else
     match t.toNat?, parseIName name with
     | some t, some n =>
-      let obs := match stepObs s t with | .none => "" | .root r => " " ++ r | .content c => " " ++ c
+      let obs := if kw == "at" then "" else match stepObs s t with | .none => "" | .root r => " " ++ r | .content c => " " ++ c
       match replayLine lOps s (.at t n) with
       | (s', .ran) => (s', "ok ran" ++ obs)
       | (s', .finished v) => (s', s!"ok finished {resName v}")
